@@ -94,6 +94,10 @@ def build(tier, seed):
             tasks.append({"plugin": [dict(s, F=F) for s in sel], "F": F})
     for F in ([list(CATS), ["fix", "trim"], ["fix"]]):
         tasks.append({"pyc": True, "F": F})
+    ic = [{"imports": True, "header": h, "sites": st, "F": F} for h in IMPORT_HEADERS for st in (["hasrepr"], ["external"], ["both"], ["fix", "external"], ["hasrepr", "external", "fix"])
+          for F in (list(CATS), ["create", "fix"])]
+    for i in range(0, len(ic), 5):
+        tasks.append({"imports": ic[i : i + 5]})
     return tasks
 
 
@@ -179,6 +183,55 @@ def _judge_plugin(cases):
     return what, {"src": src, "states": [src, s1.get("test_something.py"), s2.get("test_something.py")]}
 
 
+# where (and whether) the names the generated code needs are already imported in the file: only a module-level
+# `from inline_snapshot import <name>` binds them for the snapshot arguments
+IMPORT_HEADERS = {
+    "none": "",
+    "function": "def helper():\n    from inline_snapshot import HasRepr, external\n\n    return HasRepr, external\n\n\n",
+    "class": "class K:\n    from inline_snapshot import HasRepr, external\n\n\n",
+    "if-false": "if False:\n    from inline_snapshot import HasRepr, external\n\n\n",
+    "type-checking": "from typing import TYPE_CHECKING\n\nif TYPE_CHECKING:\n    from inline_snapshot import HasRepr, external\n\n\n",
+    "try": "try:\n    from inline_snapshot import HasRepr, external\nexcept ImportError:\n    pass\n\n\n",
+    "aliased": "from inline_snapshot import HasRepr as HR, external as ext\n\n\n",
+    "other-module": "from os.path import join as external, split as HasRepr\n\n\n",
+    "module-level": "from inline_snapshot import HasRepr, external\n\n\n",
+    "one-of-two": "from inline_snapshot import external\n\n\ndef helper():\n    from inline_snapshot import HasRepr\n\n\n",
+    "test-local": "def test_reference():\n    from inline_snapshot import HasRepr, external\n\n    assert HasRepr and external\n\n\n",
+}
+IMPORT_SITES = {"hasrepr": "assert Thing() == snapshot()", "external": "assert outsource('payload') == snapshot()",
+                "both": "assert [Thing(), outsource(b'bytes')] == snapshot()", "fix": "assert {'k': Thing()} == snapshot({'k': 0})"}
+
+
+def _judge_imports(case):
+    from ..drivers import plugin
+
+    # (the header sits in the import block at the top: a later statement of the user that rebinds the name is the user's own shadowing)
+    src = ("from inline_snapshot import snapshot, outsource\n" + IMPORT_HEADERS[case["header"]].rstrip("\n") + "\n\n\nclass Thing:\n    def __repr__(self):\n        return '<Thing>'\n\n"
+           "    def __eq__(self, other):\n        return isinstance(other, Thing) or NotImplemented\n\n\n"
+           + "".join("def test_%d():\n    %s\n\n\n" % (i, IMPORT_SITES[n]) for i, n in enumerate(case["sites"])))
+    d = plugin.mk_project({"test_something.py": src, "pyproject.toml": ""})
+    try:
+        arg = ["--inline-snapshot=" + ",".join(case["F"])]
+        r1 = plugin.session(d, arg)
+        s1 = plugin.listing(d, text=True)["test_something.py"]
+        r2 = plugin.session(d, arg)
+        s2 = plugin.listing(d, text=True)["test_something.py"]
+        r3 = plugin.session(d, [])
+    finally:
+        plugin.cleanup()
+    if any(plugin.internal_error(r["out"]) for r in (r1, r2, r3)):
+        return ("internal-error", (r1["out"][-500:] + r2["out"][-500:]))
+    if s1 == src:
+        return ("harness", "first run changed nothing: " + r1["out"][-300:])
+    if s2 != s1:
+        return ("file-changes-again", _diff(s1, s2))
+    if r2["rc"] != 0 or plugin.report_sections(r2["out"]):
+        return ("second-run-not-green", "rc=%s sections=%s\n--- file after the first run ---\n%s\n--- output ---\n%s" % (r2["rc"], plugin.report_sections(r2["out"]), s1[-700:], r2["out"][-600:]))
+    if r3["rc"] != 0:
+        return ("plain-run-after-approval-not-green", "rc=%s\n%s\n%s" % (r3["rc"], s1[-700:], r3["out"][-600:]))
+    return None
+
+
 def _judge_pyc_history(case):
     """A real directory with the bytecode cache ON (the Python default): the source files are dated back, so a rewrite on
     the unchanged tree always gets a different mtime and pytest's rewritten .pyc (keyed by mtime and size) is invalidated."""
@@ -209,6 +262,9 @@ def _judge_pyc_history(case):
 
 
 def run_case(case):
+    if "imports" in case:
+        w = _judge_imports(case)
+        return [{"case": case, "what": w[0], "detail": w[1]}] if w else []
     if "pyc" in case:
         w = _judge_pyc_history(case)
         return [{"case": case, "what": w[0], "detail": w[1]}] if w else []
@@ -223,6 +279,17 @@ def _sig(c, v):
 
 
 def run_task(task):
+    if "imports" in task:
+        out = {"n": 0, "nontrivial": [], "outcomes": {}, "violations": [], "samples": []}
+        for c in task["imports"]:
+            vs = run_case(c)
+            out["n"] += 1
+            out["violations"] += vs
+            lab = "viol:" + vs[0]["what"] if vs else "ok:import-shape-double-session"
+            if not vs:
+                out["nontrivial"].append("imports|%s|%s|%s" % (c["header"], c["sites"], c["F"]))
+            out["outcomes"][lab] = out["outcomes"].get(lab, 0) + 1
+        return out
     if "pyc" in task:
         vs = run_case(task)
         return {"n": 1, "nontrivial": [] if vs else ["pyc|%s" % task["F"]], "outcomes": {("viol:" + vs[0]["what"]) if vs else "ok:bytecode-cache-history": 1},
